@@ -7,9 +7,9 @@ namespace Qbice.CoreFw
 open Qbice.Core (Prog Err Write SetRes allVals evalProg applyWorld Sat TraceOK applyWrites writeResults
   Op OpOut Ref)
 
-theorem query_spec {p : Program} (wf : WF p) (pf : NoProjOverProj p) {fuel k : Nat} (hk : k < fuel)
+theorem query_spec {p : Program} (wf : WF p) (sh : Shape p) {fuel k : Nat} (hk : k < fuel)
     {s : St} (inv : Inv p s) : Sat (query p fuel .user k s) (UPost p k s) :=
-  queryU_spec wf pf hk inv
+  queryU_spec wf sh hk inv
 
 /-- a history driven the way the correspondence driver drives the model: every operation starts
     with an empty execution log, rounds use `fuelFor p` -/
@@ -128,16 +128,21 @@ theorem Inv.setLog {p : Program} {s : St} (inv : Inv p s) (l : List Key) :
     hx.transfer (fun y n hy hn => ⟨n, hn, rfl, rfl, rfl, rfl, rfl, id, id⟩)
   have ng : ∀ x, NGood s x → NGood { s with log := l } x := fun x hx =>
     NGood.congr (s := s) (s' := { s with log := l }) rfl hx
-  refine ⟨inv.kind, inv.pjFw, inv.pjBroken, inv.down, inv.tfcDown, inv.nodup, inv.trace, inv.stamp, inv.seenSub,
+  refine ⟨inv.kind, inv.pjFw, inv.pjKinds, inv.pjStat, inv.pjSeen, inv.pjCause, inv.pjBroken, inv.down,
+    inv.tfcDown, inv.nodup, inv.trace, inv.stamp, inv.seenSub,
     fun k n hn hv => sol k (inv.solid k n hn hv), ?_⟩
   intro x n hx y o hm hcl
   obtain ⟨ny, hny, hv, hacc, hgood⟩ := inv.clean x n hx y o hm hcl
   exact ⟨ny, hny, hv, hacc, fun hk => ng y (hgood hk)⟩
 
 theorem Inv.init (p : Program) : Inv p {} := by
-  refine ⟨?_, ?_, ?_, ?_, ?_, ?_, ?_, ?_, ?_, ?_, ?_⟩
+  refine ⟨?_, ?_, ?_, ?_, ?_, ?_, ?_, ?_, ?_, ?_, ?_, ?_, ?_, ?_, ?_⟩
   · intro k n h; cases h
+  · intro _ k n h; cases h
   · intro k n h; cases h
+  · intro _ k n d ks h; cases h
+  · intro _ x n g o ng h; cases h
+  · intro _ g ng h; cases h
   · intro k n h; cases h
   · intro k n h; cases h
   · intro k n h; cases h
@@ -157,7 +162,7 @@ theorem query_badKey {p : Program} {s : St} (inv : Inv p s) {k : Key} (hk : p.le
     | some n => obtain ⟨d, hd, _⟩ := inv.kind k n h; rw [hp] at hd; cases hd
   simp [query, queryU, repairTfc, hn, queryQ_badKey inv hk f false]
 
-theorem roundAux_spec {p : Program} (wf : WF p) (pf : NoProjOverProj p) {fuel : Nat} (hf : p.length < fuel) :
+theorem roundAux_spec {p : Program} (wf : WF p) (sh : Shape p) {fuel : Nat} (hf : p.length < fuel) :
     ∀ (ks : List Key) (cache : List (Key × Val)) (out : List Val) (s : St), Inv p s →
       (∀ e, e ∈ cache → cur p s e.1 = some e.2) →
       Sat (roundAux p fuel ks cache out s) (fun r =>
@@ -184,7 +189,7 @@ theorem roundAux_spec {p : Program} (wf : WF p) (pf : NoProjOverProj p) {fuel : 
     | none =>
       simp only
       by_cases hk : k < p.length
-      · have hq := query_spec wf pf (fuel := fuel) (k := k) (by komega) inv
+      · have hq := query_spec wf sh (fuel := fuel) (k := k) (by komega) inv
         cases hr : query p fuel .user k s with
         | error e => rw [hr] at hq; simpa [Sat] using hq
         | ok r =>
@@ -208,17 +213,17 @@ theorem roundAux_spec {p : Program} (wf : WF p) (pf : NoProjOverProj p) {fuel : 
         rw [query_badKey inv (by komega) f]
         simp [Sat]
 
-theorem round_spec {p : Program} (wf : WF p) (pf : NoProjOverProj p) {s : St} (inv : Inv p s) (ks : List Key) :
+theorem round_spec {p : Program} (wf : WF p) (sh : Shape p) {s : St} (inv : Inv p s) (ks : List Key) :
     Sat (round p (fuelFor p) ks s) (fun r =>
       r.1.map some = ks.map (cur p s) ∧ Inv p r.2 ∧ Frame p s r.2) := by
-  refine (roundAux_spec wf pf (fuel := fuelFor p) (by simp [fuelFor]) ks [] [] s inv
+  refine (roundAux_spec wf sh (fuel := fuelFor p) (by simp [fuelFor]) ks [] [] s inv
     (fun _ h => by cases h)).mono ?_
   rintro ⟨vs, s'⟩ ⟨⟨vs', h1, h2⟩, i', f'⟩
   simp only [List.nil_append] at h1
   subst h1
   exact ⟨h2, i', f'⟩
 
-theorem runOps_spec {p : Program} (wf : WF p) (pf : NoProjOverProj p) :
+theorem runOps_spec {p : Program} (wf : WF p) (sh : Shape p) :
     ∀ (ops : List Op) (s : St), Inv p s →
       Sat (runOps p ops s) (fun r => OutOK p ops r.1 (refOf s) ∧ Inv p r.2) := by
   intro ops
@@ -263,7 +268,7 @@ theorem runOps_spec {p : Program} (wf : WF p) (pf : NoProjOverProj p) :
           rw [← this]; exact o2
     | round ks =>
       simp only [runOps]
-      have hrd := round_spec wf pf (inv.setLog []) ks
+      have hrd := round_spec wf sh (inv.setLog []) ks
       cases hs : round p (fuelFor p) ks { s with log := [] } with
       | error e => rw [hs] at hrd; simpa [Sat] using hrd
       | ok r =>
